@@ -447,3 +447,12 @@ func getStr(txn *Txn, k string) string {
 	}
 	return string(v)
 }
+
+// yieldBriefly lets free-running background goroutines make progress (non-bubble scenarios only).
+func yieldBriefly() { time.Sleep(50 * time.Microsecond) }
+
+func removeAll(dir string) {
+	if dir != "" {
+		_ = os.RemoveAll(dir)
+	}
+}
